@@ -23,6 +23,7 @@ type Case struct {
 	Named  bool   // list parameters declared with named slice types (assignable, not identical)
 	Layout int    // where _onBounds sits among the parser type's methods (pgo.Opts.BoundsLayout)
 	Nil    uint64 `json:",omitempty"` // rules whose actions return a nil `any` (pgo.Opts.NilMask)
+	Tok    uint64 `json:",omitempty"` // rules whose actions return the last Token they received (pgo.Opts.TokMask)
 	PtrDis bool   `json:",omitempty"` // Token.Discard has a pointer receiver (pgo.Opts.PtrDiscard)
 	Inputs [][]int
 	Lox    string `json:",omitempty"`
@@ -59,6 +60,13 @@ func Gen(rt *rapid.T, run *ev.Run, nInputs int, nullableHeavy bool) *Case {
 			c.Nil = rapid.Uint64().Draw(rt, "nilmask") | uint64(rapid.IntRange(0, 1).Draw(rt, "nilstart"))
 			if len(pgo.NilRules(g, c.Nil)) > 0 {
 				run.Class("gen:rules-returning-nil-interface")
+			}
+		}
+		if rapid.IntRange(0, 2).Draw(rt, "tok-results") == 0 {
+			// some rules hand on a token instead of a node (result type Token)
+			c.Tok = rapid.Uint64().Draw(rt, "tokmask")
+			if len(pgo.TokRules(g, c.Tok, pgo.NilRules(g, c.Nil))) > 0 {
+				run.Class("gen:rules-returning-a-token")
 			}
 		}
 		for k := 0; k < nInputs; k++ {
@@ -117,7 +125,7 @@ func Eval(run *ev.Run, cases []*Case, m Mode, count bool, prop string) ([]Verdic
 	mk := func(onb bool) ([]*pbatch.Case, []*pbatch.Out, error) {
 		pc := make([]*pbatch.Case, len(cases))
 		for i, c := range cases {
-			pc[i] = &pbatch.Case{G: c.G, Inputs: c.Inputs, OnBounds: onb, NamedSlices: c.Named, BoundsLayout: c.Layout, NilMask: c.Nil, PtrDiscard: c.PtrDis}
+			pc[i] = &pbatch.Case{G: c.G, Inputs: c.Inputs, OnBounds: onb, NamedSlices: c.Named, BoundsLayout: c.Layout, NilMask: c.Nil, TokMask: c.Tok, PtrDiscard: c.PtrDis}
 		}
 		outs, err := pbatch.Run(pc, true)
 		return pc, outs, err
@@ -166,7 +174,7 @@ func Eval(run *ev.Run, cases []*Case, m Mode, count bool, prop string) ([]Verdic
 			if err := p.ValidateTree(tree, w); err != nil {
 				return nil, fmt.Errorf("reference tree failed self-certification: %v", err)
 			}
-			ex := pgo.ExpectedNil(p, tree, w, pgo.NilRules(c.G, c.Nil))
+			ex := pgo.ExpectedNilTok(p, tree, w, pgo.NilRules(c.G, c.Nil), pgo.TokRules(c.G, c.Tok, pgo.NilRules(c.G, c.Nil)))
 			r := o.Results[k]
 			if r.Skipped {
 				continue
